@@ -27,6 +27,7 @@ func ruleTypeForm(c *core.Ctx) {
 			r := g.Method("pkg/schemas", typeName, "UnmarshalJSON", target, doc(g))
 			return &res{errNil: absint.IsNilValue(r), val: *target.P}
 		})
+		noteRuns(c, runs)
 		if !complete {
 			return nil, "fork budget"
 		}
